@@ -1,6 +1,7 @@
 // Harness-side codecs written for the simulator (no code shared with the daemon): SHA-1, base64, raw framing, RFC 6455 frames.
 #include "world.h"
 #include <cstring>
+#include <cstdio>
 
 std::string sha1(const std::string &in) {
 	uint32_t h0 = 0x67452301, h1 = 0xEFCDAB89, h2 = 0x98BADCFE, h3 = 0x10325476, h4 = 0xC3D2E1F0;
@@ -86,4 +87,23 @@ std::string ws_handshake(const std::string &target, const std::string &key, cons
 	r += extra;
 	r += "\r\n";
 	return r;
+}
+
+std::string ascii_safe(const std::string &s) {
+	std::string o; char b[8];
+	for (unsigned char c : s) { if ((c >= 0x20 && c < 0x7f) || c == '\n' || c == '\t') o += (char)c; else { snprintf(b, sizeof b, "\\x%02x", c); o += b; } }
+	return o;
+}
+
+bool valid_utf8(const std::string &s) {
+	size_t i = 0, n = s.size();
+	while (i < n) {
+		unsigned char c = s[i];
+		if (c == 0) return false;
+		size_t len = c < 0x80 ? 1 : (c >> 5) == 6 ? 2 : (c >> 4) == 14 ? 3 : (c >> 3) == 30 ? 4 : 0;
+		if (!len || i + len > n) return false;
+		for (size_t k = 1; k < len; k++) if (((unsigned char)s[i + k] & 0xC0) != 0x80) return false;
+		i += len;
+	}
+	return true;
 }
